@@ -92,7 +92,10 @@ pub fn ends_in_plain_terminator(s: &[u8]) -> bool {
         return false;
     }
     let mut i = 0usize;
+    // did the scan take the final byte as a plain byte (not as part of a payload)?
+    let mut last_plain = false;
     while i < s.len() {
+        last_plain = false;
         match s[i] {
             q @ (b'"' | b'\'') => {
                 // find the closing quote
@@ -116,13 +119,19 @@ pub fn ends_in_plain_terminator(s: &[u8]) -> bool {
                         i += 2 + w + len;
                         continue;
                     }
+                    // a block header with non-digits in its length field: not plainly closed
+                    return false;
                 }
                 i += 1;
+                last_plain = i == s.len();
             }
-            _ => i += 1,
+            _ => {
+                i += 1;
+                last_plain = i == s.len();
+            }
         }
     }
-    i == s.len()
+    last_plain
 }
 
 fn report(acc: &mut Acc, clause: &str, x: &[u8], xy: &[u8], vx: V, vxy: V, start_name: &str, iface: &str) {
